@@ -108,14 +108,14 @@ CHECKS.update({
  "C13": dict(
   level="model_checking",
   technique="explicit-state BFS over call histories (Exec/Unmarshal/BuildExpr on shared objects) with state de-duplication; every transition replayed on fresh real objects; deep reflective fingerprints as invariant",
-  text="States are the contents/length/capacity of two caller-held node-set slots on two documents; 150+ operations per state (44 menu expressions from 3 context nodes, results optionally kept - also re-sliced with spare capacity -, Unmarshal, BuildExpr); depth 2 (quick) / 3 (thorough). After every call: fingerprints (unexported fields, spare capacity, cyclic pointers) of the tree, both slots' full-capacity views, all compiled expressions and the caller's namespace, variable and function maps unchanged; the result equals the same call's result in every other history; reused compiled expression = freshly built one. Process histories: every ordered pair of 80 calls (32 near-duplicate expression texts; 8 texts x 3 context nodes x 2 documents) in a FRESH process - the second call's outcome must equal its outcome in a process where nothing ran before. Parser order: every ambiguous alternative list of every built C08 query rotated.",
+  text="States are the contents/length/capacity of two caller-held node-set slots on two documents; 150+ operations per state (44 menu expressions from 3 context nodes, results optionally kept - also re-sliced with spare capacity -, Unmarshal, BuildExpr); depth 2 (quick) / 3 (thorough). After every call: fingerprints (unexported fields, spare capacity, cyclic pointers) of the tree, both slots' full-capacity views, all compiled expressions and the caller's namespace, variable and function maps unchanged; the result equals the same call's result in every other history; reused compiled expression = freshly built one. Process histories: every ordered pair of 100 calls (32 near-duplicate expression texts; 8 texts x 3 context nodes x 2 documents; 10 texts about node values - string-values, node-set comparisons, sums - x 2 documents) in a FRESH process - the second call's outcome must equal its outcome in a process where nothing ran before. Parser order: every ambiguous alternative list of every built C08 query rotated.",
   note="BuildExpr repeatability over the parser's internal (map-iteration) ordering is enumerated at deviation bound 1: every ambiguous alternative list of every built C08 query is rotated so that each alternative comes first once (reflection on the parse forest, no hook); simultaneous deviations in two lists are not enumerated.",
   ref="2 C13"),
  "C14": dict(
   level="model_checking",
   technique="stateless model checking of the real code under a cooperative scheduler: DFS over all thread schedules with iterative preemption bounding; library through proxy cursors whose accessors are scheduling points, CLI through on-the-fly source rewriting + go build -overlay (one process per execution)",
   text="Library: 15 scenarios of 2-3 threads x 1-2 real Exec calls sharing tree, compiled expressions, caller maps and a caller slice with spare capacity (two scenarios pass per-call bindings through the With* option helpers instead); every schedule with <=2 (thorough 3) preemptions: each call returns its serial result, shared slices unchanged at every scheduling point, deep fingerprints unchanged. Worker bodies: 7 scenarios of 2-3 documents (XML with attributes/namespaces, HTML, JSON) read concurrently through the library's parsers with a scheduling point at every Pull and every 12-byte Read, every schedule with <=3 (thorough 4) preemptions, each tree equal to the tree built alone. CLI: the real main() (rewritten: go statements, channel ops, WaitGroup/Mutex, every stdout/stderr write are scheduling points) on 6 file/flag scenarios with -c 2..4: no deadlock, stdout = concatenation of exactly the serial per-file blocks (contiguous, intact, any order), nothing written after main returns, diagnostics present. Auxiliary: the same library bodies and concurrent document reads free-running under the race detector.",
-  note="Partial-order reduction for the library half: two audited executions per scenario take the full fingerprint of everything shared (proxy lists with spare capacity, real tree, compiled expressions, binding maps, caller slices, and - through a generated build overlay - every package-level variable of the library) at EVERY scheduling point, and a go/ast scan looks for writes to package-level variables outside init(); if nothing changes, every step is a read of shared state, steps are independent and all interleavings are trace-equivalent to the audited ones (evidence key library_reduction; not claimed otherwise). The CLI search prunes decisions already expanded from an identical global state (state key = per-thread operation/observation histories + channel contents + WaitGroup/mutex states + writes so far; validated at bound 1 against the unpruned search on every run). Quick caps each scenario of the bounded search (25000 / 4000 executions) and then reports exhaustive:false with the bounds completed. Interleavings below the granularity of tree accesses / user-function calls are only covered by the auxiliary -race pass. No hook is committed to /repo.",
+  note="Partial-order reduction for the library half: two audited executions per scenario take the full fingerprint of everything shared (proxy lists with spare capacity, real tree, compiled expressions, binding maps, caller slices, and - through a generated build overlay - every package-level variable of the library) at EVERY scheduling point, and a go/ast scan looks for writes to package-level variables outside init(); if nothing changes, every step is a read of shared state, steps are independent and all interleavings are trace-equivalent to the audited ones (evidence key library_reduction; not claimed otherwise). The CLI search prunes decisions already expanded from an identical global state (state key = per-thread operation/observation histories + channel contents + WaitGroup/mutex states + writes so far; validated at bound 1 against the unpruned search on every run). Quick caps each scenario of the bounded search (25000 / 4000 executions) and then reports exhaustive:false with the bounds completed. Interleavings below the granularity of tree accesses / user-function calls are only covered by the auxiliary -race pass. Every library scenario and every read scenario is explored in a process of its own; an execution that does not end within 100000 scheduling points, a call in flight for 240 s, a CLI execution longer than 5 minutes or a race pass longer than 20 minutes is reported as a violation (the calls take milliseconds). No hook is committed to /repo.",
   ref="2 C14"),
  "C20": dict(
   level="exploration",
